@@ -9,6 +9,10 @@ def run_model(steps):
         op, arg = st[0], st[1:]
         if op == 'P':
             k, v = arg.split('='); cur[k] = v; exp[n] = 'ok'
+        elif op == 'B':
+            for kv in arg.split('+'):
+                k, v = kv.split('='); cur[k] = v
+            exp[n] = 'ok'
         elif op == 'D':
             cur.pop(arg, None); exp[n] = 'ok'
         elif op in ('F', 'C', 'c'): exp[n] = 'ok'
